@@ -18,6 +18,16 @@ FIRST = {
  'C11b': ('missed', 'no input with two OPT records; added two-OPT packets at every position'),
  'C15b': ('missed', 'no IPv4-mapped IPv6 address in the address alphabet; added'),
  'C16b': ('missed', 'attribute-less TXT built from parts was excluded as not wire-representable; added constructible-but-never-parsed values'),
+ # round 3: these were judged to be misses from the change summaries and the checks were strengthened before the first run
+ 'C01c': ('anticipated miss by C01 (C11 had the input class)', 'no message with two OPT records among the C01 seed messages; added at every position'),
+ 'C05c': ('anticipated miss', 'every message had the same header flags; framing is now swept under TC / query / other-opcode headers and every proper prefix must be rejected'),
+ 'C06c': ('anticipated miss', 'no length byte 0x40..=0xbf followed by that many bytes behind a pointer (needs >= 66 bytes); added in place, via label+pointer, via bare pointer and embedded in opaque RDATA'),
+ 'C10c': ('anticipated miss by C10 (C03/C07 had it)', 'C10 built only the uncompressed form; the compressed build is now decoded by the reference decoder as well'),
+ 'C11c': ('anticipated miss by C11 (C03/C07 had it)', 'no parsed input above 16 KiB; straddle, long-name and large packets added to the C11 inputs'),
+ 'C13c': ('anticipated miss', 'no two records differing only in class; added a class twin to the menu'),
+ 'C14c': ('anticipated miss', 'no query producing a reply above 9000 bytes and no watchdog around the handlers; added many-question datagrams, a 20 s handler watchdog and the global hang monitor'),
+ 'C15c': ('anticipated miss', 'announcements never carried foreign records in the additional section next to a genuine instance; added that event'),
+ 'C19c': ('anticipated miss', 'no two keys differing only in letter case; added'),
 }
 def load_jsonl(pattern):
     out = {}
